@@ -1215,6 +1215,7 @@ def all_leaves():
     out += [("pat", p) for p in all_patterns()]
     # assert-style constraint types (is_instance, is_value, add_annotation)
     out += [("assertinst", c) for c in ("int", "float", "bool", "str", "A", "B", "C", "tuple", "object", "type", "EnumMeta", "list")]
+    out += [("not", ("assertinst", c)) for c in ("int", "float", "complex", "A", "object")]
     out += [("assertis", l) for l in SINGLETON_LITS] + [("not", ("assertis", l)) for l in SINGLETON_LITS[:4]]
     out += [("hasattr", "__class__", True), ("hasattr", "no_such_attr_", False)]
     # the parts of a sequence / mapping pattern on their own (constrain_value route only)
